@@ -37,6 +37,7 @@ type SchedCfg struct {
 	PCTDepth     int     `json:"pct_depth"`     // pct mode: number of priority change points
 	PCTSteps     int     `json:"pct_steps"`     // pct mode: estimated number of decisions
 	MaxDecisions int     `json:"max_decisions"` // hand-off bound
+	StepYield    int     `json:"step_yield,omitempty"` // >0: every n-th function entry of package spec is a scheduling point too
 	Replay       []int32 `json:"replay,omitempty"`
 }
 
@@ -63,6 +64,8 @@ type Sched struct {
 	replay    []int32
 	replayPos int
 
+	stepYield int64
+	stepCount int64
 	switches  int64
 	yields    int64
 	contended int64
@@ -336,7 +339,7 @@ func RunTasks(cfg SchedCfg, bodies []func(), ctxs []*OpCtx) SchedResult {
 	if n > maxTasks {
 		panic("too many tasks")
 	}
-	s := &Sched{n: int32(n), rng: *NewRNG(cfg.Seed), maxDec: int64(cfg.MaxDecisions)}
+	s := &Sched{n: int32(n), rng: *NewRNG(cfg.Seed), maxDec: int64(cfg.MaxDecisions), stepYield: int64(cfg.StepYield)}
 	if s.maxDec <= 0 {
 		s.maxDec = 20000
 	}
@@ -436,3 +439,19 @@ func CurTask() int {
 //
 //go:norace
 func NextSeq() int64 { return nextSeq() }
+
+// stepYieldPoint is called at every function entry of package spec: with StepYield = n, every
+// n-th entry (counted over all tasks) is a scheduling point, which lets interleavings happen
+// inside code that touches no lock, cache, loader or package variable.
+//
+//go:norace
+func stepYieldPoint() {
+	s := activeSched
+	if s == nil || s.stepYield <= 0 {
+		return
+	}
+	s.stepCount++
+	if s.stepCount%s.stepYield == 0 {
+		s.yield()
+	}
+}
